@@ -10,6 +10,8 @@ import (
 	"bytes"
 	"fmt"
 	"math/big"
+	"os"
+	"os/exec"
 
 	secp256k1 "gitlab.com/yawning/secp256k1-voi"
 	"gitlab.com/yawning/secp256k1-voi/secec/h2c"
@@ -411,5 +413,26 @@ func main() {
 	R.Sample("suite", map[string]any{"suite": "RO", "dst_len": 257, "msg_len": 56})
 	R.Expect("xmd/oversize DST (> 255)", "uniform/exceptional (tv1 = 0), sgn0(u)=0", "uniform/exceptional (tv1 = 0), sgn0(u)=1", "uniform/gx1 square (first candidate x1), sgn0(u)=0",
 		"uniform/gx1 square (first candidate x1), sgn0(u)=1", "uniform/gx1 non-square (second candidate x2), sgn0(u)=0", "uniform/gx1 non-square (second candidate x2), sgn0(u)=1", "suite/RO", "suite/NU")
+	// a program that links nothing but the hash-to-curve package (built by the driver with the same overlay): the
+	// suites must work there too - what they need from the hash registry they have to pull in themselves
+	if aux := os.Getenv("VERIF_AUX_BIN"); aux != "" {
+		if _, err := os.Stat(aux); err == nil {
+			out, _ := exec.Command(aux).CombinedOutput()
+			ro, _ := ref.HashToCurveRO([]byte("QUUX-V01-CS02-with-secp256k1_XMD:SHA-256_SSWU_RO_"), []byte("abc"))
+			nu, _ := ref.EncodeToCurveNU([]byte("QUUX-V01-CS02-with-secp256k1_XMD:SHA-256_SSWU_NU_"), []byte("abc"))
+			want := fmt.Sprintf("RO %x\nNU %x\n", ro.Uncompressed(), nu.Uncompressed())
+			R.T(2)
+			R.Class("suite/minimal-link program (only the h2c package linked)", 2)
+			if string(out) != want {
+				o := string(out)
+				if len(o) > 600 {
+					o = o[:600]
+				}
+				R.Fail("suite/minimal-link program", "misc", map[string]any{"what": "a program importing only the hash-to-curve package does not produce the RFC 9380 points for msg=abc", "output": o, "expected": want}, nil)
+			}
+		} else {
+			R.SkipHook("minimal-link program (did not build)")
+		}
+	}
 	R.Finish()
 }
